@@ -197,7 +197,7 @@ def run(ctx):
     native.build()
     known, _ = load_known("C06")
     N = int(os.environ.get("VERIF_C06_N", "2" if ctx.quick else "3"))
-    count = int(os.environ.get("VERIF_C06_GRAMMARS", "500" if ctx.quick else "4000"))
+    count = int(os.environ.get("VERIF_C06_GRAMMARS", "6000"))
     fam = family(ctx.seed, count)
     texts = [grammar(r) for r in fam]
     stages = c01.front(texts)
